@@ -284,11 +284,85 @@ Definition val_comp (r : res comp) : val :=
   | Ok c => VL [VS (c_name c); VS (c_model c); VOpt VS (c_type c); VS (c_details c); VOpt val_ns (c_ns c)]
   end.
 
+(* -------- what the CALLER sees: aliasing of the label objects --------
+   generate_component does not copy the Labels objects it is handed: it attaches the caller's object to the
+   interface and then stamps local_name INTO it (component_catalog.py:150-158).  lab_tag is the identity of the
+   caller's object.  Consequences modelled here (and compared by the tie): after the call, an object carries the
+   local_name of the LAST port it was handed to; every interface that shares it shows that value; the caller's
+   own objects are modified -- also by a call that then raises IndexError on a too-short label list. *)
+Definition stamps_caller_labels : bool := true.        (* false once labels are copied before stamping *)
+
+Definition set_local (i : iface) (l : localv) : iface :=
+  {| if_name := if_name i; if_kind := if_kind i; if_id := if_id i; if_tag := if_tag i; if_bdf := if_bdf i;
+     if_local := l; if_unit := if_unit i; if_bw := if_bw i |}.
+
+(* the port whose name the object with tag t carries after the loop: the last port it was handed to *)
+Definition owner_port (pnames : list str) (labs : list lab) (t : N) : option str :=
+  last_opt (map fst (filter (fun pl => N.eqb (lab_tag (snd pl)) t) (combine pnames labs))).
+
+Fixpoint mapi_from {X Y} (f : nat -> X -> Y) (j : nat) (l : list X) : list Y :=
+  match l with [] => [] | x :: r => f j x :: mapi_from f (Datatypes.S j) r end.
+
+Definition alias_iface (pnames : list str) (labs : list lab) (j : nat) (i : iface) : iface :=
+  match nth_error labs j with
+  | Some lb => match owner_port pnames labs (lab_tag lb) with
+               | Some pn => set_local i (local_of (if_bdf i) pn)
+               | None => i
+               end
+  | None => i
+  end.
+
+Definition sel_ports (cat : list comp_entry) (s : sel) : option (list (str * Z)) :=
+  let key := match s with
+             | ByModelType v => match (if (0 <? v)%N then nth_error cat (N.to_nat (v - 1)) else None) with
+                                | Some e => Some (e_model e, e_type e) | None => None end
+             | ByTypeModel (Some ct) (Some m) => Some (m, ct)
+             | ByTypeModel _ _ => None
+             end in
+  match key with
+  | Some (m, ct) => match find_entry cat m ct with Some e => e_ifs e | None => None end
+  | None => None
+  end.
+
+Definition alias_comp (pnames : list str) (labs : list lab) (c : comp) : comp :=
+  {| c_name := c_name c; c_model := c_model c; c_type := c_type c; c_details := c_details c;
+     c_ns := match c_ns c with
+             | Some ns => Some {| ns_id := ns_id ns; ns_name := ns_name ns; ns_type := ns_type ns; ns_layer := ns_layer ns;
+                                  ns_ifs := mapi_from (alias_iface pnames labs) 0 (ns_ifs ns) |}
+             | None => None
+             end |}.
+
+(* the component as the caller sees it when the call returns *)
+Definition gen_component_seen (cat : list comp_entry) (name : str) (s : sel) (nsid : option str)
+           (ids : option (list str)) (labs : option (list lab)) (parent : option str) : res comp :=
+  match gen_component cat name s nsid ids labs parent, labs, sel_ports cat s with
+  | Ok c, Some l, Some ports => if stamps_caller_labels then Ok (alias_comp (map fst ports) l c) else Ok c
+  | r, _, _ => r
+  end.
+
+(* local_name of each label object the caller handed over, after the call (None = untouched) *)
+Definition caller_labels_after (cat : list comp_entry) (name : str) (s : sel) (nsid : option str)
+           (ids : option (list str)) (labs : option (list lab)) (parent : option str) : list (option localv) :=
+  match labs, sel_ports cat s with
+  | Some l, Some ports =>
+      let stamped := match gen_component cat name s nsid ids labs parent with
+                     | Ok _ => true
+                     | Err c => str_eqb c (S"IndexError")
+                     end in
+      map (fun lb => if stamps_caller_labels && stamped
+                     then option_map (local_of (lab_bdf lb)) (owner_port (map fst ports) l (lab_tag lb))
+                     else None) l
+  | Some l, None => map (fun _ => None) l
+  | None, _ => []
+  end.
+
 Definition comp_case : Type :=
   (str * sel * option str * option (list str) * option (list lab) * option str)%type.
-Definition check_comp (x : comp_case * val) : bool :=
-  let '((name, s, nsid, ids, labs, parent), o) := x in
-  val_eqb (val_comp (gen_component comp_catalog name s nsid ids labs parent)) o.
+Definition obs_gen (cat : list comp_entry) (c : comp_case) : val :=
+  let '(name, s, nsid, ids, labs, parent) := c in
+  VL [val_comp (gen_component_seen cat name s nsid ids labs parent);
+      VL (map (VOpt val_local) (caller_labels_after cat name s nsid ids labs parent))].
+Definition check_comp (x : comp_case * val) : bool := val_eqb (obs_gen comp_catalog (fst x)) (snd x).
 
 Definition val_member (m : str * N * option comp_entry) : val :=
   let '(k, v, e) := m in
@@ -307,8 +381,7 @@ Definition check_enum (x : unit * val) : bool :=
 Record cstate := { s_inst : list inst_entry; s_comp : list comp_entry }.
 Inductive hop := OpMap (req : caps3) | OpGen (c : comp_case) | OpSkip.
 
-Definition gen_case_val (cat : list comp_entry) (c : comp_case) : val :=
-  let '(name, s, nsid, ids, labs, parent) := c in val_comp (gen_component cat name s nsid ids labs parent).
+Definition gen_case_val (cat : list comp_entry) (c : comp_case) : val := obs_gen cat c.
 
 Definition hstep (s : cstate) (o : hop) : cstate * val :=
   match o with
